@@ -37,19 +37,23 @@ def run(ctx):
     big = not ctx.quick()
     g = ctx.dump_graph("XdsResourceMC", "XdsResourceMCBig.cfg" if big else "XdsResourceMC.cfg", workers=4, timeout=3000)
     ctx.neg("XdsResourceMC", "XdsResourceNeg.cfg", expect="I_RulesGiveInvariants", workers=2)
-    xs = []
+    ctx.neg("XdsResourceMC", "XdsResourceNeg2.cfg", expect="I_LdsRulesGiveInvariants", workers=2)
+    xs, ys = [], []
     for nid in sorted(g.nodes):
         st = parse_tla_state(g.nodes[nid], only={"kind", "x"})
         if st["kind"] == "eds":
             xs.append(st["x"])
-    if not xs:
-        raise Inconclusive("graph dump has no EDS resources")
+        elif st["kind"] == "lds":
+            ys.append(st["x"])
+    if not xs or not ys:
+        raise Inconclusive("graph dump lacks EDS or LDS resources (%d, %d)" % (len(xs), len(ys)))
     xs.sort(key=lambda v: json.dumps(v, sort_keys=True))
-    ctx.log("inputs from TLC: %d abstract EDS resources" % len(xs))
+    ys.sort(key=lambda v: json.dumps(v, sort_keys=True))
+    ctx.log("inputs from TLC: %d abstract EDS resources, %d abstract Listeners" % (len(xs), len(ys)))
     bpath = os.path.join(ctx.run, "c45.in.ndjson")
     tpath = os.path.join(ctx.run, "c45.trace.ndjson")
-    write_ndjson(bpath, [{"x": x} for x in xs])
-    ctx.cov["behaviours_generated"] += len(xs)
+    write_ndjson(bpath, [{"x": x} for x in xs] + [{"y": y} for y in ys])
+    ctx.cov["behaviours_generated"] += len(xs) + len(ys)
     binary = ctx.go_build("internal/xds/xdsclient/xdsresource", name="c45", only=r"zz_verif_c45_")
     out = ctx.driver(binary, "TestVerifC45", {"VERIF_BEHAVIOURS": bpath, "VERIF_OUT": tpath, "VERIF_N": ctx.pick(1500, 20000)})
     for ln in out.splitlines():
